@@ -626,7 +626,9 @@ def run(ctx):
              'forward/backward scheduler runs. distinct = distinct (graph snapshot, entry, fields, children, theme) whose sheet has '
              '>= 3 lines, plus distinct usage tables with >= 3 lines',
         samples=[{'case': cases[sample], 'observed_calls': obs[sample].get('calls')}, {'case': cases[-1], 'observed': obs[-1]}],
-        distribution={k: int(v) for k, v in dist.items()},
+        distribution=dict({k: int(v) for k, v in dist.items()},
+                          growing_caption_stream_judged_in_python_calls=ctx.coverage_unicode_case['calls'],
+                          growing_caption_stream_judged_in_python_lines=ctx.coverage_unicode_case['lines']),
         traces_validated_against_impl=evaluations,
         comparison='exact text (colour codes included) model vs implementation inside Coq; oracles line count / equal visible '
                    'width / three-space indentation / one line per day evaluated on the implementation\'s text',
